@@ -770,12 +770,90 @@ def render_siblings(q, kind, W, chain, term, model):
     return "\n".join(L) + "\n", model, k
 
 
+def conv_terms(k):
+    """sources of an assignment conversion through a view of width k: run-time Unsigned/Signed of width <= k"""
+    return [f"conv:{sk}{m}" for sk in ("U", "S") for m in range(1, k + 1)]
+
+
+NORESET_TERMS = ("nr1:whole", "nr1:iter", "nr0:whole", "nr0:iter")
+
+
+def default_pattern(W):
+    return 0x66 & ((1 << W) - 1) if W > 1 else 1
+
+
+def render_conv(q, kind, W, chain, term, model):
+    """write a NARROWER (or equal) run-time Unsigned/Signed source through a view whose documented type is
+    Unsigned/Signed: the assignment converts to the VIEW's type (value preserving)"""
+    mkind, E = model
+    k = len(E)
+    sk, m = term[5], int(term[6:])
+    if mkind not in ("U", "S") or m > k or not chain or q not in WRITABLE:
+        return None
+    ct = chain_text(chain)
+    rt = type_text(kind, W)
+    L = [HEADER, "class T(Entity):", f"    d = Port.input({rt})", f"    x = Port.input({type_text(sk, m)})"]
+    asg = "@=" if q[0] == "Variable" else "<<="
+    pre, extra = [], []
+    if q[0] == "Port":
+        L.append(f"    o = Port.{'output' if q[1] == 'OUT' else 'inout'}({rt})")
+        body = ["self.o <<= self.d", f"v = self.o{ct}", f"v {asg} self.x"]
+    elif q[0] == "Signal":
+        L.append(f"    o = Port.output({rt})")
+        pre = [f"r = Signal[{rt}]()"]
+        body = ["r.next = self.d", f"v = r{ct}", f"v {asg} self.x"]
+        extra = ["@std.concurrent", "def c():", "    self.o <<= r"]
+    else:
+        L.append(f"    o = Port.output({rt})")
+        pre = [f"r = Variable[{rt}]()"]
+        body = ["r.value = self.d", f"v = r{ct}", f"v {asg} self.x", "self.o <<= r"]
+    L.append("    def architecture(self):")
+    L += ["        " + p for p in pre] + ["        @std.sequential", "        def p():"] + ["            " + b for b in body]
+    L += ["        " + e for e in extra]
+    return "\n".join(L) + "\n", model, k
+
+
+def render_noreset(q, kind, W, chain, term, model):
+    """root with a default value, declared with noreset=True|False, written ONLY through the view in a clocked context
+    with reset; the root is observable on o"""
+    mkind, E = model
+    k = len(E)
+    nr, sub = term[2] == "1", term[4:]
+    if kind != "BV" or q not in (("Signal", None), ("Port", "OUT")) or (sub == "iter" and mkind == "Bit"):
+        return None
+    ct = chain_text(chain)
+    rt = type_text(kind, W)
+    dflt = format(default_pattern(W), f"0{W}b")
+    xt = type_text("BV", k) if sub == "iter" else type_text(mkind, k)
+    L = [HEADER, "class T(Entity):", "    clk = Port.input(Bit)", "    rst = Port.input(Bit)", f"    x = Port.input({xt})"]
+    if q[0] == "Port":
+        L.append(f"    o = Port.output({rt}, default=\"{dflt}\", noreset={nr})")
+        pre, R, extra = [], "self.o", []
+    else:
+        L.append(f"    o = Port.output({rt})")
+        pre, R = [f"r = Signal[{rt}](\"{dflt}\", noreset={nr})"], "r"
+        extra = ["@std.concurrent", "def c():", "    self.o <<= r"]
+    wr = [f"v = {R}{ct}", "v <<= self.x"] if sub == "whole" else [f"for i, b in enumerate({R}{ct}):", "    b <<= self.x[i]"]
+    L.append("    def architecture(self):")
+    L += ["        " + p for p in pre]
+    L += ["        @std.sequential(std.Clock(self.clk), std.Reset(self.rst))", "        def p():"] + ["            " + b for b in wr]
+    L += ["        " + e for e in extra]
+    return "\n".join(L) + "\n", model, k
+
+
 def check_emitted(q, kind, W, chain, term, mode, full_background=True):
     """compile + simulate one wrapper; returns dict(status=..., ...)"""
     from ..cohdl_util import compile_source
     from ..vhdl.elab import compile_design
 
-    if term in SIB_TERMS or q in LOCAL_Q:
+    if term.startswith("conv:") or term.startswith("nr"):
+        model = root_model(kind, W)
+        for op in chain:
+            model = apply_model(model, op)
+        if model[0] in ("ARR", "Bit") and not term.startswith("nr") or model[0] == "ARR" or kind == "ARR" or mode != "write":
+            return {"status": "na"}
+        r = render_conv(q, kind, W, chain, term, model) if term.startswith("conv:") else render_noreset(q, kind, W, chain, term, model)
+    elif term in SIB_TERMS or q in LOCAL_Q:
         model = root_model(kind, W)
         for op in chain:
             model = apply_model(model, op)
@@ -814,7 +892,49 @@ def check_emitted(q, kind, W, chain, term, mode, full_background=True):
     seen = set()
     if "clk = Port.input" in src:
         sim.set("clk", 0)
-    if term in SIB_TERMS:
+    if term.startswith("conv:"):
+        sk, m = term[5], int(term[6:])
+        for dv in sorted({0, (1 << W) - 1, 0x5 & ((1 << W) - 1), 0xA & ((1 << W) - 1)}):
+            for xv in range(1 << m):
+                val = xv - (1 << m) if sk == "S" and xv >> (m - 1) & 1 else xv
+                lo, hi = (-(1 << (k - 1)), 1 << (k - 1)) if mkind == "S" else (0, 1 << k)
+                if not lo <= val < hi:
+                    continue  # not representable in the view's type: the statement says nothing
+                sim.set_many({"d": dv, "x": xv})
+                got = sim.get("o")
+                got = int(got) if got is not None else None
+                evals += 1
+                seen.add(got)
+                exp = insert(dv, E, val & ((1 << k) - 1))
+                if got != exp:
+                    return {"status": "mismatch", "src": src, "vhdl": res.vhdl, "evals": evals, "observed": None,
+                            "what": f"d={dv:0{W}b}, {type_text(sk, m)} value {val} written through the {type_text(mkind, k)} view "
+                                    f"(bits {E}): root becomes {fmt(got, W)}, the view must hold {val} = {val & ((1 << k) - 1):0{k}b}, "
+                                    f"root {exp:0{W}b}"}
+    elif term.startswith("nr"):
+        nr = term[2] == "1"
+        dflt = default_pattern(W)
+        sim.set_many({"rst": 0, "x": 0})
+        cur = dflt
+        for xv in list(range(1 << k)) + list(range((1 << k) - 1, -1, -1)):
+            for rst in (0, 1):
+                sim.set_many({"rst": rst, "x": xv})
+                sim.clock("clk")
+                evals += 1
+                if rst:
+                    cur = cur if nr else dflt
+                else:
+                    cur = insert(cur, E, xv)
+                got = sim.get("o")
+                got = int(got) if got is not None else None
+                seen.add(got)
+                if got != cur:
+                    return {"status": "mismatch", "src": src, "vhdl": res.vhdl, "evals": evals, "observed": None,
+                            "what": f"root declared with default {dflt:0{W}b}, noreset={nr}, written only through the view: after "
+                                    f"{'a clock with reset asserted' if rst else 'writing %s' % format(xv, '0%db' % k)} the root is "
+                                    f"{fmt(got, W)}, expected {cur:0{W}b}"
+                                    f"{' (noreset roots keep their value under reset)' if rst and nr else ''}"}
+    elif term in SIB_TERMS:
         clocked = term.endswith("C")
         for xv in range(1 << W):
             sim.set("x", xv)
